@@ -1,5 +1,5 @@
 (** C14 - Concurrent clients never deadlock and see sequentially explainable states. *)
-From Chokan Require Import Base.ListUtil Server.Protocol Gen.Protocol Server.ConcModel Server.ConcProofs.
+From Chokan Require Import Base.ListUtil Server.Protocol Gen.Protocol Server.ConcModel Server.ConcProofs Server.ConcAtomic.
 
 Definition rank (m : mutex) : nat := match m with MDict => 0 | MStore => 1 | MPref => 2 end.
 Definition handler_progs : list (list op) := map snd p_handlers.
@@ -21,6 +21,29 @@ Proof. exact (no_deadlock rank handler_progs task_progs (proj1 C14_protocol_rank
 Theorem C14_reads_and_commits_atomic : forallb (read_atomic []) handler_progs = true /\ forallb (read_atomic []) task_progs = true.
 Proof. vm_compute. split; reflexivity. Qed.
 
+(** sequential explainability, semantically: in EVERY reachable configuration a thread about to read or commit shared data
+    holds the mutexes guarding it and no other thread holds any of them ... *)
+Theorem C14_guarded_exclusive : forall ts j t o r m, reach handler_progs task_progs ts -> nth_error ts j = Some t -> th_rest t = o :: r -> In m (guards o) ->
+  holds (th_held t) m = true /\ forall i t', i <> j -> nth_error ts i = Some t' -> holds (th_held t') m = false.
+Proof.
+  exact (guarded_exclusive rank handler_progs task_progs (proj1 C14_protocol_ranked) (proj2 C14_protocol_ranked)
+           (proj1 C14_reads_and_commits_atomic) (proj2 C14_reads_and_commits_atomic)).
+Qed.
+
+(** ... so while a conversion is at its read of dictionary + learned counts, no other thread is at a read or a commit of
+    either: the read is one atomic snapshot (its linearisation point), lying between the commits that precede it and those
+    that follow it; commits guarded by the same mutex are totally ordered *)
+Theorem C14_read_is_snapshot : forall ts i ti r j tj o r', reach handler_progs task_progs ts -> i <> j ->
+  nth_error ts i = Some ti -> th_rest ti = ReadDictFreq :: r -> nth_error ts j = Some tj -> th_rest tj = o :: r' ->
+  ~ In MDict (guards o) /\ ~ In MPref (guards o).
+Proof.
+  exact (read_is_snapshot rank handler_progs task_progs (proj1 C14_protocol_ranked) (proj2 C14_protocol_ranked)
+           (proj1 C14_reads_and_commits_atomic) (proj2 C14_reads_and_commits_atomic)).
+Qed.
+
 (** a registered entry is never half-visible: all its conjugated forms are merged inside one dictionary section *)
 Theorem C14_entry_atomic : forallb (one_section false) task_progs = true.
 Proof. vm_compute. reflexivity. Qed.
+
+Print Assumptions C14_guarded_exclusive.
+Print Assumptions C14_read_is_snapshot.
